@@ -138,7 +138,8 @@ Clauses_transform(ev) ==
       calls == ev.obs.calls
       n   == Len(Ids(pre, ax))
       cell(k, m) == IF ax = "observation" THEN <<k, m>> ELSE <<m, k>>
-  IN IF Failed(ev) THEN [C13_transform_succeeds |-> FALSE]
+  IN IF IsEmptyTable(pre) THEN [C13_out_of_domain_empty_table |-> TRUE]
+     ELSE IF Failed(ev) THEN [C13_transform_succeeds |-> FALSE]
      ELSE LET post == ev.post[ResultSlot(ev)] IN
       [C13_f_called_once_per_vector_in_order |-> [k \in 1..Len(calls) |-> calls[k].id] = Ids(pre, ax),
        C13_f_gets_exactly_the_nonzero_values |->
